@@ -317,7 +317,23 @@ INDICATOR_STUBS = "\n".join("#[kani::stub(%s, crate::verif_support::indicator::%
     ("crate::chess::zobrist::en_passant", "en_passant"), ("crate::chess::zobrist::side_to_play", "side_to_play"),
     ("crate::engine::eval::piece_square_tables::piece_contributions", "piece_contributions")])
 
-BODY_RE = re.compile(r"^[ \t]*//@@\s*body\s*:\s*(\S+)\s*::\s*(.*?)\s*=>\s*(\w+)\s*(.*)$", re.M)
+BODY_RE = re.compile(r"^[ \t]*//@@[ \t]*body[ \t]*:[ \t]*(\S+)[ \t]*::[ \t]*(.*?)[ \t]*=>[ \t]*(\w+)[ \t]*(.*)$", re.M)
+
+
+ITEM_RE = re.compile(r"^[ \t]*//@@[ \t]*item[ \t]*:[ \t]*(\S+)[ \t]*::[ \t]*(.*?)[ \t]*$", re.M)
+
+
+def expand_items(text, root, record):
+    """//@@ item: <relpath> :: <locator>   is replaced by the verbatim text of that item (struct / enum / impl / fn ...)"""
+
+    def repl(m):
+        rel, locator = m.group(1), m.group(2)
+        item = extract_item(rel, locator, root, with_attrs=True)
+        record.append({"source": ("src/" + rel) if not rel.startswith("src/") else rel, "item": locator,
+                       "sha256_of_source_span": sha256(item), "renamed_to": None, "substitutions": []})
+        return item
+
+    return ITEM_RE.sub(repl, text)
 
 
 def expand_bodies(text, root, record):
@@ -345,6 +361,7 @@ def expand_bodies(text, root, record):
         prefix = "pub " if ("pub" in opts.split() and not new.lstrip().startswith("pub")) else ""
         return prefix + new
 
+    text = expand_items(text, root, record)
     text = re.sub(r"^[ \t]*//@@stubs-tables[ \t]*$", TABLE_STUBS, text, flags=re.M)
     text = re.sub(r"^[ \t]*//@@stubs-indicator[ \t]*$", INDICATOR_STUBS, text, flags=re.M)
     return BODY_RE.sub(repl, text)
@@ -384,9 +401,10 @@ def stage_kani(scratch, cfiles, extra_tests=None):
             extra = ""
             if extra_tests and cf.path.name in extra_tests:
                 extra = "\n" + extra_tests[cf.path.name] + "\n"
+            glob = "" if "noglob" in cf.meta else "    use super::*;\n"
             tail += ("\n// ==== appended by /verif from contracts/kani/%s ====\n#[cfg(kani)]\n"
-                     "#[allow(warnings, clippy::all)]\npub(crate) mod verif_kani_%s {\n    use super::*;\n%s\n%s}\n"
-                     % (cf.path.name, cf.tag, body, extra))
+                     "#[allow(warnings, clippy::all)]\npub(crate) mod verif_kani_%s {\n%s%s\n%s}\n"
+                     % (cf.path.name, cf.tag, glob, body, extra))
         f.write_bytes(orig + tail.encode())
         staged = f.read_bytes()
         assert staged[: len(orig)] == orig
@@ -462,7 +480,7 @@ def run_limited(cmd, cwd, timeout, mem_gb, logfile):
     return status or ("exit%d" % p.returncode), time.time() - t0, peak / 1024 / 1024
 
 
-CHECK_RE = re.compile(r"^Check (\d+): (.+)\n\t - Status: (\w+)\n\t - Description: \"(.*)\"\n\t - Location: (.*)$", re.M)
+CHECK_RE = re.compile(r"^Check (\d+): (.+)\n\t - Status: (\w+)\n\t - Description: \"((?:.|\n)*?)\"\n\t - Location: (.*)$", re.M)
 
 
 def parse_kani_log(text):
